@@ -135,6 +135,7 @@ func main() {
 	stripP2P := flag.Bool("stripp2p", true, "overlay a copy of pkg/p2p/p2p.go whose Run body is stripped (quic-go does not build)")
 	pin := flag.String("pin", "", "concrete run: JSON file name->[values] pinning every nondet (translator validation)")
 	clockFiles := flag.String("clockfiles", "", "comma separated source files (relative to -mod) in which time.Now()/time.Since( are redirected to the harness clock zzverif.Now()/zzverif.Since( (mechanical copy, used by the symbolic AND the native build)")
+	hookFiles := flag.String("hookfiles", "", "comma separated file:ReceiverType (relative to -mod): every method of the receiver gets a prologue that calls zzverif.Hooks[\"Type.Method\"] when the harness registered one (mechanical copy, used by both builds)")
 	exact := flag.Bool("exactfmt", false, "render %d of symbolic integers exactly (digit variables) instead of opaquely")
 	summ := flag.String("summary", "", "comma separated summaries to enable (vaaid = (*VAAID).Bytes as an injective encoding of its fields)")
 	flag.Parse()
@@ -193,6 +194,19 @@ func main() {
 		out := filepath.Join(*workDir, "clock_"+strings.ReplaceAll(cf, "/", "_"))
 		if err := rewriteClock(src, out, *repoMod); err != nil {
 			fmt.Println("INCONCLUSIVE cannot redirect the clock in", cf, err)
+			os.Exit(2)
+		}
+		addOverlay(src, out)
+	}
+	for _, hf := range strings.Split(*hookFiles, ",") {
+		if hf == "" {
+			continue
+		}
+		kv := strings.SplitN(hf, ":", 2)
+		src := filepath.Join(*repoMod, kv[0])
+		out := filepath.Join(*workDir, "hook_"+strings.ReplaceAll(kv[0], "/", "_"))
+		if err := rewriteHooks(src, out, *repoMod, kv[1]); err != nil {
+			fmt.Println("INCONCLUSIVE cannot insert hooks in", kv[0], err)
 			os.Exit(2)
 		}
 		addOverlay(src, out)
